@@ -205,6 +205,43 @@ void run_tree(const Execution &ex) {
         out().raw(std::string("\"e\":\"Missing\",\"exists\":") + (missing.exists() ? "true" : "false") + ",\"file\":" + (missing.isFile() ? "true" : "false") +
                   ",\"dir\":" + (missing.isDirectory() ? "true" : "false") + ",\"size_throws\":" + (nf ? "true" : "false"));
     }
+    {
+        // a Path is a name, not a snapshot of what the name referred to: the SAME objects are asked again after the entries
+        // behind their names have changed kind (directory -> file, file -> directory, missing -> directory)
+        std::string dnode, fnode;
+        for (const auto &st : ex.steps) {
+            std::string rel = rel_of(st.str("node"));
+            if (rel.find('/') != std::string::npos) continue;   // top level only: swapping a parent would take children along
+            if (st.str("kind") == "dir" && dnode.empty()) dnode = base + "/" + rel;
+            if (st.str("kind") != "dir" && fnode.empty()) fnode = base + "/" + rel;
+        }
+        std::vector<std::pair<std::string, std::unique_ptr<Path>>> objs;
+        if (!dnode.empty()) objs.emplace_back("dir->file", std::make_unique<Path>(dnode));
+        if (!fnode.empty()) objs.emplace_back("file->dir", std::make_unique<Path>(fnode));
+        objs.emplace_back("missing->dir", std::make_unique<Path>(base + "/later on"));
+        auto ask = [&](const char *when) {
+            for (auto &[what, p] : objs) {
+                std::error_code ec2;
+                std::string full = p->toString();
+                out().raw("\"e\":\"Again\",\"when\":" + jstr(when) + ",\"what\":" + jstr(what) + ",\"exists\":" + (p->exists() ? "true" : "false") + ",\"file\":" +
+                          (p->isFile() ? "true" : "false") + ",\"dir\":" + (p->isDirectory() ? "true" : "false") + ",\"fs_exists\":" + (fs::exists(full, ec2) ? "true" : "false") +
+                          ",\"fs_file\":" + (fs::is_regular_file(full, ec2) ? "true" : "false") + ",\"fs_dir\":" + (fs::is_directory(full, ec2) ? "true" : "false"));
+            }
+        };
+        ask("before");
+        std::error_code ec3;
+        if (!dnode.empty()) {
+            fs::remove_all(dnode, ec3);
+            std::ofstream o(dnode, std::ios::binary);
+            o << "now a file";
+        }
+        if (!fnode.empty()) {
+            fs::remove(fnode, ec3);
+            fs::create_directory(fnode, ec3);
+        }
+        fs::create_directory(base + "/later on", ec3);
+        ask("after");
+    }
     std::error_code ec;
     fs::remove_all(base, ec);
 }
